@@ -30,6 +30,11 @@ func init() {
 			"every []byte handed to an encoder or constructor (GUID HOB payload, event data, digests, SP800-155 locators, reset-block GUID, VMSA reserved fields, measured page) is also handed as the head of a buffer with 0xA5-filled spare capacity: same encoding as from a tight copy, all other rules again, spare bytes untouched. " +
 			"Call sequences and reuse of values: every stream/slice decoder (and FwGUIDEntry.PopulateFromBytes) also decodes the case's encoding into a receiver that is not fresh (it decoded another random encoding of the structure before, or the caller built it holding another value) - same value, same length consumed, same re-encoding as into a fresh one; " +
 			"every event-log encoder also runs on a value object that is overwritten in place with another value between calls and on the unchanged first value again; PutVmsa is followed by the caller editing the value in place (1-3 segment registers through the pointers the value holds after the call, 0-2 integer fields), a second PutVmsa of it, a PutVmsa of a never-written sparse save area (each register left out with probability 1, 1/2 or 1/4, or the empty message) and a third PutVmsa of the first: each page must be the ABI encoding of the value handed to that very call. " +
+			"Appended cases (audit.go): results of earlier calls (decoded values, byte slices returned by MarshalToBytes / PageInfo.Bytes / SevEsResetBlockFromBytes / TDXMetadataFromBytes, GUID HOB values) are kept over 3-6 later calls on other values with failing decodes in between, judged again, then overwritten by the caller and the same inputs run once more; " +
+			"the same entry points run in 4-8 goroutines at once on their own values (48 iterations per entry point, everybody released together; only values that were right alone) - same results as alone; " +
+			"Marshal / WriteTo into a writer that fails after every number of accepted bytes below the encoding's length (partial or refused last write): an error must come back, and the value encodes unchanged afterwards into a writer that takes exactly the encoding; " +
+			"stream decoders read their own encoding, truncations of it and encodings behind which the reader fails with a non-EOF error through readers with short reads (1 byte, 1-7, 16-64, one split point, last bytes together with io.EOF, empty reads, N-byte pieces, bufio with a 16-byte buffer): whatever is accepted is judged as through the other readers; " +
+			"arrays of 511 B .. 310 KiB (sizes around 512 B, 4 KiB, 32 KiB, 64 KiB) in Uint32SizedArray / TCGEventData / TCG_PCR_EVENT2 / log, all stream probes with sampled truncations plus cuts around those sizes, pieces of 512..32769 bytes; SP800-155 events of exactly 65504 bytes and less (in range), 65505..65512 (counted) and 65513.. (out of range). " +
 			"Oracle (one-directional): encoder output equals the reference encoding and touches exactly the ABI size; decode(encode(v)) = v with exactly the encoding consumed; in-range values and documented-size zero reserved fields are accepted; " +
 			"out-of-range fields and non-zero reserved fields are refused; an accepted byte string re-encodes to itself (SP800-155 trailing zero padding excepted). Refusals of malformed input are counted, never judged; a panic on malformed input counts as a refusal. " +
 			"non-trivial = distinct (structure, probe, outcome) cells",
@@ -42,6 +47,8 @@ func init() {
 			"CreateEFIHOBGUID pads with append(), which zeroes 1..7 bytes behind len(data) in the caller's buffer when it has spare capacity; the property is about encodings, so exactly this behaviour is counted and noted (const judgeHobPadInCallersBuffer), any other write into a caller's spare capacity is judged",
 			"CryptoAgileLog.Unmarshal appends to the receiver's Events: a log receiver that already holds events has them cleared by the harness before the judged decode; the appending itself is counted and noted (const judgeLogAppendOnReuse), not judged",
 			"PutVmsa installs empty segment messages for the registers the caller left out (a side effect on the caller's value that encodes to the same bytes); the in-place edits of the sequence probe go through whatever segment pointers the value holds after the call, as sev.prepareVmsas does with CS",
+			"EfiGUID / TaggedDigest / TCGPCClientPCREvent.Unmarshal fetch a fixed-size byte field with one r.Read and refuse a valid encoding when that Read is short (or returns its bytes together with io.EOF): counted and noted (const judgeShortReadRefusal), not judged; everything a short-read reader gets accepted is judged",
+			"the concurrent cases run on the ordinary (not the -race) worker: they see shared state through wrong results, not through the race detector; a violation found there may not reproduce under --replay",
 			"size fields changed by the single-byte probe are skipped when the declared size exceeds 1 MiB (allocation behaviour is C07's subject)",
 		},
 		ShardsQuick: 8, ShardsThor: 16, TimeoutS: 600, TimeoutThor: 3000, Run: run,
@@ -249,6 +256,7 @@ func run(c *core.Ctx) {
 		c.Count("cases/"+k.name, 1)
 		c.End(i)
 	}
+	runAudit(c, st, n) // the audit's dimensions: cases n, n+1, ... (audit.go)
 	for _, f := range floorNames {
 		c.Floor(f, floors[f] > 0)
 	}
